@@ -145,7 +145,7 @@ def main(argv=None):
     # 4. bounded stand-ins
     bounded = []
     for b in P.get("bounded", []):
-        bounded.append(run_bounded(b, repo, seed, tier))
+        bounded.append(run_bounded(dict(b, prop=a.prop), repo, seed, tier))
 
     # 5. verdicts
     violations = []
@@ -243,7 +243,7 @@ def main(argv=None):
     cov = {
         "obligations": n_obl, "discharged": n_dis,
         "checker_cmd": f"python3-vt -m checks.run {a.prop} --tier {tier}",
-        "trusted_base": sorted(t for t in trusted if t.startswith("model:") or t.startswith("opaque:")),
+        "trusted_base": sorted(t for t in trusted if t.split(":")[0] in ("model", "opaque", "assumed-contract", "external")),
         "functions_under_contract": functions, "lemmas": lemma_out,
         "excluded_by_known_finding": n_excluded,
         "bounded": [strip_bounded(b) for b in bounded],
@@ -266,7 +266,12 @@ def main(argv=None):
     with open(os.path.join(a.evidence_dir, f"{a.prop}.json"), "w", encoding="utf-8") as fh:
         json.dump(ev, fh, indent=1, default=str)
 
+    seen_kl = set()
     for kl in known_lines:
+        key_ = kl.split("[")[0].strip()
+        if key_ in seen_kl:
+            continue
+        seen_kl.add(key_)
         print(kl)
     print(f"{a.prop}: {n_dis}/{n_obl} obligations discharged over {len(functions)} functions and {len(lemma_out)} lemmas; "
           f"{n_excluded} excluded by known-finding regimes; bounded stand-ins: {len(bounded)}; wall {wall:.1f}s")
@@ -334,7 +339,8 @@ def run_bounded(b, repo, seed, tier):
             out["contract_module"] = b["contract_module"]
         return out
     if kind == "native_script":
-        r = native({"mode": "script", "module": b["module"], "repo": repo, "seed": seed, "tier": tier}, timeout=1200)
+        r = native({"mode": "script", "module": b["module"], "repo": repo, "seed": seed, "tier": tier,
+                    "prop": b.get("prop")}, timeout=1200)
         if "error" in r:
             out["error"] = r["error"]
             return out
